@@ -107,7 +107,9 @@ pub fn c10(tier: Tier) -> ! {
                     if si > 0 && ((sa[0] == "polygon" && sa[2] == "6") || sa[0] == "circle" || sa.len() > 3 && sa[0] == "trimer") {
                         continue;
                     }
-                    cases.push(C10Case { group: g, shape_args: sa.iter().map(|s| s.to_string()).collect(), spec: spec.clone(), potential: pot, opt: set.iter().map(|s| s.to_string()).collect(), kmax });
+                    // (the long setting up to six replicas in the oblique groups, where replicas end with different cell angles)
+                    let km = if si > 0 && (*g == "p1" || *g == "p2") { kmax.max(6) } else { kmax };
+                    cases.push(C10Case { group: g, shape_args: sa.iter().map(|s| s.to_string()).collect(), spec: spec.clone(), potential: pot, opt: set.iter().map(|s| s.to_string()).collect(), kmax: km });
                 }
                 // a hot, short Lennard-Jones run: replicas end with negative as well as positive
                 // scores, so the selection has to order across zero
@@ -619,11 +621,11 @@ pub fn c11(tier: Tier) -> ! {
                 let v = v * sign;
                 let mut p = base.clone();
                 let admissible = match slot {
-                    0 => v > 1e-3 && v < 1e6,
+                    // (cell length, site coordinates and orientation of any magnitude: a file may hold them)
+                    0 => v > 1e-3,
                     1 => v > 1e-3 && v <= 1.,
                     2 => v > 0.1 && v < 3.,
-                    3 | 4 => v.abs() <= 1e6,
-                    _ => v.abs() <= 1e6,
+                    _ => true,
                 };
                 if !admissible || !v.is_finite() {
                     continue;
